@@ -193,20 +193,28 @@ def colouring(ctx):
     m = ctx.repo.mod(SP)
     r = ctx.rule("PAR-COLOUR", "colour map: an element's colour differs from every element sharing one of its global dofs; elements are grouped by equal colour", 3)
     fn = m.fn("FunctionSpace._compute_color_map")
-    ok, why = _colour_map_shape(fn)
+    ok, why = _recognised(_colour_map_shape(fn), "_compute_color_map")
     r.check(ok, "_compute_color_map", SP, fn.name, fn.lineno, "colour map construction", why)
     fs = m.fn("FunctionSpace._sort_elements_by_color")
-    oks, whys = _sort_by_colour_shape(fs)
+    oks, whys = _recognised(_sort_by_colour_shape(fs), "_sort_elements_by_color")
     r.check(oks, "_sort_elements_by_color", SP, fs.name, fs.lineno, "grouping by colour", whys)
     inv = m.fn("invert_local2global")
-    oki, whyi = _invert_shape(inv)
+    oki, whyi = _recognised(_invert_shape(inv), "invert_local2global")
     r.check(oki, "invert_local2global", SP, inv.name, inv.lineno, "global2local inversion", whyi)
     # embedded positives: the same recognisers must reject the obvious breakages
     bad1 = ast.parse("def f(self):\n    for e in self.support_elements:\n        nb = set()\n        for d in self.local2global[e][:1]:\n            for x, _ in self.global2local[d]:\n                nb.add(x)\n"
                      "        self._color_map[e] = next(c for c in range(9) if c not in self._color_map[list(nb)])").body[0]
     bad2 = ast.parse("def f(m, mult):\n    g = [[] for _ in range(1 + _np.max(m))]\n    for e in range(len(m)):\n        for l, d in enumerate(m[e]):\n            g[d].append((l, e))\n    return g").body[0]
-    r.must_fire(not _colour_map_shape(bad1)[0], "neighbours from the first local dof only")
-    r.must_fire(not _invert_shape(bad2)[0], "global2local entries as (local index, element)")
+    r.must_fire(_colour_map_shape(bad1)[0] is False, "neighbours from the first local dof only")
+    r.must_fire(_invert_shape(bad2)[0] is False, "global2local entries as (local index, element)")
+
+
+def _recognised(res, what):
+    """(True / False, why) of a shape recogniser; its third answer (None, why) - the construction is written in a way the
+    recogniser does not read - is a limit of the analysis, not a verdict."""
+    if res[0] is None:
+        raise AnalysisError("%s: construction not recognised: %s" % (what, res[1]))
+    return res
 
 
 def _colour_map_shape(fn):
@@ -216,12 +224,12 @@ def _colour_map_shape(fn):
     S = roles.stores(fn.body, defs)
     adds = [s for s in S if s.op == "call" and isinstance(s.vnode.func, ast.Attribute) and s.vnode.func.attr == "add" and len(s.vnode.args) == 1 and len(s.loops) == 3 and not s.guards]
     if len(adds) != 1:
-        return False, "no unguarded `<set>.add(<element>)` inside the loops element -> local dofs -> global2local entries (found %d)" % len(adds)
+        return None, "no unguarded `<set>.add(<element>)` inside the loops element -> local dofs -> global2local entries (found %d)" % len(adds)
     a = adds[0]
     l0, l1, l2 = a.loops
     if not (isinstance(l0.target, ast.Name) and isinstance(l1.target, ast.Name) and isinstance(l2.target, ast.Tuple) and isinstance(l2.target.elts[0], ast.Name)
             and isinstance(a.vnode.func.value, ast.Name)):
-        return False, "loop targets are not (element), (dof), (element, local index)"
+        return None, "loop targets are not (element), (dof), (element, local index)"
     e, d, en, setname = l0.target.id, l1.target.id, l2.target.elts[0].id, a.vnode.func.value.id
     ln = a.node.lineno
     if roles.canon(l0.iter, defs).replace(" ", "") != "self.support_elements":
@@ -234,19 +242,19 @@ def _colour_map_shape(fn):
         return False, "the set does not receive the neighbouring element"
     picks = [s for s in S if s.op == "=" and s.target == roles.expect("self._color_map[E]", defs, s.node.lineno, E=e) and s.loops == (l0,)]
     if len(picks) != 1 or picks[0].node.lineno < a.node.lineno:
-        return False, "self._color_map[element] is not assigned once after the neighbour set is complete"
+        return None, "self._color_map[element] is not assigned once after the neighbour set is complete"
     gens = [g for g in ast.walk(picks[0].vnode) if isinstance(g, ast.GeneratorExp)]
     if not (isinstance(picks[0].vnode, ast.Call) and unparse(picks[0].vnode.func) == "next" and len(gens) == 1 and len(gens[0].generators) == 1 and len(gens[0].generators[0].ifs) == 1):
-        return False, "colour is not `next(c for c in ... if c not in <neighbour colours>)`"
+        return None, "colour is not `next(c for c in ... if c not in <neighbour colours>)`"
     g = gens[0].generators[0]
     cond = g.ifs[0]
     cvar = g.target.id if isinstance(g.target, ast.Name) else None
     if not (cvar and isinstance(cond, ast.Compare) and isinstance(cond.ops[0], ast.NotIn) and unparse(cond.left) == cvar and unparse(gens[0].elt) == cvar):
-        return False, "colour candidates are not filtered by `not in`"
+        return None, "colour candidates are not filtered by `not in`"
     if roles.canon(cond.comparators[0], defs, keep={setname}).replace(" ", "") != "self._color_map[list(%s)]" % setname:
         return False, "candidates are compared with `%s`, not with the colours of the collected neighbours" % unparse(cond.comparators[0])[:60]
     if not (isinstance(g.iter, ast.Call) and unparse(g.iter.func) == "range"):
-        return False, "colour candidates are not an ascending range"
+        return None, "colour candidates are not an ascending range"
     return True, ""
 
 
@@ -263,11 +271,11 @@ def _sort_by_colour_shape(fs):
                 if unparse(t) in ("self._sorted_indices", "self._indexptr") and isinstance(v, ast.Name):
                     pub[unparse(t)] = v.id
     if set(pub) != {"self._sorted_indices", "self._indexptr"}:
-        return False, "self._sorted_indices / self._indexptr are not published from local arrays"
+        return None, "self._sorted_indices / self._indexptr are not published from local arrays"
     SI, IP = pub["self._sorted_indices"], pub["self._indexptr"]
     loops = [s for s in fs.body if isinstance(s, ast.For)]
     if len(loops) != 1:
-        return False, "expected one loop over the colours"
+        return None, "expected one loop over the colours"
     lp = loops[0]
     it = roles.canon(lp.iter, defs).replace(" ", "")
     alts ={roles.expect(x, defs, lp.lineno) for x in ("1 + max(self.color_map)", "1 + _np.max(self.color_map)", "1 + self.color_map.max()")}
@@ -276,11 +284,11 @@ def _sort_by_colour_shape(fs):
     elif isinstance(lp.target, ast.Name) and it in {"range(%s)" % a for a in alts} | {"_np.arange(%s)" % a for a in alts}:
         I = C = lp.target.id
     else:
-        return False, "the loop runs over `%s`, not over every colour 0 .. max(color_map)" % unparse(lp.iter)[:80]
+        return None, "the loop runs over `%s`, not over every colour 0 .. max(color_map)" % unparse(lp.iter)[:80]
     body = [s for s in S if s.loops == (lp,) and not s.guards]
     cnt = [s for s in body if s.op == "Add=" and isinstance(s.tnode, ast.Name)]
     if len(cnt) != 1:
-        return False, "no single running counter in the colour loop"
+        return None, "no single running counter in the colour loop"
     CNT = cnt[0].target
     ln = cnt[0].node.lineno
     members = "_np.flatnonzero(self.color_map == C)"
@@ -308,22 +316,22 @@ def _invert_shape(inv):
     S = roles.stores(inv.body, defs)
     rets = [s for s in S if s.op == "return"]
     if len(rets) != 1 or not isinstance(rets[0].vnode, ast.Name):
-        return False, "does not return one local list"
+        return None, "does not return one local list"
     G = rets[0].vnode.id
     apps = [s for s in S if s.op == "call" and isinstance(s.vnode.func, ast.Attribute) and s.vnode.func.attr == "append"]
     if len(apps) != 1 or len(apps[0].loops) != 2:
-        return False, "expected one append inside the loops over elements and local dofs"
+        return None, "expected one append inside the loops over elements and local dofs"
     a = apps[0]
     l0, l1 = a.loops
     if not (isinstance(l0.target, ast.Name) and isinstance(l1.target, ast.Tuple) and len(l1.target.elts) == 2):
-        return False, "loops are not `for element` / `for local, dof in enumerate(...)`"
+        return None, "loops are not `for element` / `for local, dof in enumerate(...)`"
     E, L, D = l0.target.id, l1.target.elts[0].id, l1.target.elts[1].id
     ln = a.node.lineno
     ex = lambda src, lv=True: roles.expect(src, defs, ln, lv=lv, G=G, E=E, L=L, D=D, M=p[0], W=p[1])
     if roles.canon(l0.iter, defs).replace(" ", "") not in (ex("range(len(M))", False), ex("range(M.shape[0])", False)):
-        return False, "outer loop does not run over every element of the map"
+        return None, "outer loop does not run over every element of the map"
     if roles.canon(l1.iter, defs).replace(" ", "") != ex("enumerate(M[E])", False):
-        return False, "inner loop does not enumerate local2global[element]"
+        return None, "inner loop does not enumerate local2global[element]"
     if a.value != ex("G[D].append((E, L))"):
         return False, "global2local[dof] does not receive (element, local index) (is `%s`)" % unparse(a.vnode)[:80]
     # under which multipliers the entry is made is decided by evaluation over a table of multiplier rows (INVERT-L2G)
